@@ -11,6 +11,12 @@ T_PATHS = 'bounded-exhaustive exploration of the row transition system (all row 
 T_HIST = 'explicit-state BFS over call histories on live objects with reflection snapshots'
 
 CHECKS = {
+    'C14': ("Explicit-state BFS over call histories on a live Document (8 documents quick / 41 thorough, incl. one with import errors, one without measures, one without clef; 70-75 read-only "
+            "operations incl. calls that raise): state = reflection snapshot of the document, of every mutable module-level container and class attribute of kernpy, and of every "
+            "option object handed to a call. Every op, every op twice and ALL ordered op pairs (chained on one live object) must return what a fresh import returns; two imports must be "
+            "indistinguishable; module state and option objects must be unchanged. On the current tree every call is a self-loop, so the reachable state set is {s0} and the result covers "
+            "histories of any length; a state-changing op would be explored by BFS to depth 12.",
+            'Trusted: kv/snapshot.py reflection walk (no field names hard-coded; Node.NextID excluded). Graph output compared modulo node identifiers.', T_HIST, 'DESIGN.md §3 C14'),
     'C19': ("Kern-only documents (every row sequence to length 4/3, thorough 5/4, over data, barline, null, clef, split, join; <=1/2 deviations of a backbone) cut at EVERY subset of their "
             "barline rows (<=5 cuts) with both separators; concat's document must equal the import of the joined text (three views), one pair per fragment, pairs consecutive, last 'to' == "
             "measure count, and exporting pair i must give exactly the data lines of fragment i.",
